@@ -191,10 +191,10 @@ class Tr:
             a, = args_pos(1)
             if a[1] != 'str': raise Unsupported('ZoneInfo of ' + a[1])
             return self.seq([a], lambda x: ('(call_zone %s)' % x[0], 'zone', True))
-        if fn == 'min':
+        if fn in ('min', 'max'):
             a, b = args_pos(2)
-            if (a[1], b[1]) != ('int', 'int'): raise Unsupported('min types')
-            return self.seq([a, b], lambda x: ('(Z.min %s %s)' % (x[0], x[1]), 'int', False))
+            if (a[1], b[1]) != ('int', 'int'): raise Unsupported('min/max types')
+            return self.seq([a, b], lambda x: ('(Z.%s %s %s)' % (fn, x[0], x[1]), 'int', False))
         if fn == 'float':
             a, = args_pos(1)
             if a[1] != 'int': raise Unsupported('float of ' + a[1])
